@@ -140,6 +140,63 @@ pub broadcast proof fn lemma_ipow_pos(d: int, e: nat) requires d > 0 ensures #[t
 pub uninterp spec fn big_into<T>(x: T) -> int;
 #[verifier::external_body]
 pub broadcast proof fn axiom_big_into_big(b: BigInt) ensures #[trigger] big_into::<BigInt>(b) == big_val(b) {}
+
+// ---------------------------------------------------------------- floor-modulo from two truncating remainders (proved)
+proof fn lemma_trem_pos(a: int, b: int) requires a >= 0, b > 0 ensures trem(a, b) == a % b, 0 <= a % b < b {
+    vstd::arithmetic::div_mod::lemma_fundamental_div_mod(a, b);
+    vstd::arithmetic::div_mod::lemma_mod_bound(a, b);
+}
+proof fn lemma_trem_small(x: int, b: int) requires 0 <= x < b ensures trem(x, b) == x {
+    vstd::arithmetic::div_mod::lemma_basic_div(x, b);
+    assert(x / b == 0);
+    assert(b * (x / b) == 0) by (nonlinear_arith) requires x / b == 0;
+}
+proof fn lemma_trem_onemore(x: int, b: int) requires b <= x < 2 * b, b > 0 ensures trem(x, b) == x - b {
+    vstd::arithmetic::div_mod::lemma_fundamental_div_mod(x, b);
+    vstd::arithmetic::div_mod::lemma_mod_bound(x, b);
+    assert(x / b == 1) by (nonlinear_arith) requires x == b * (x / b) + x % b, 0 <= x % b < b, b <= x < 2 * b, b > 0;
+}
+proof fn lemma_fmod_pos(a: int, b: int) requires b > 0 ensures trem(trem(a, b) + b, b) == a % b {
+    vstd::arithmetic::div_mod::lemma_mod_bound(a, b);
+    if a >= 0 {
+        lemma_trem_pos(a, b);
+        lemma_trem_onemore(a % b + b, b);
+    } else {
+        let m = -a;
+        lemma_trem_pos(m, b);
+        assert(trem(a, b) == -(m % b)) by {
+            vstd::arithmetic::div_mod::lemma_fundamental_div_mod(m, b);
+            assert(b * (-(m / b)) == -(b * (m / b))) by (nonlinear_arith);
+        }
+        if m % b == 0 {
+            lemma_trem_onemore(b, b);
+            vstd::arithmetic::div_mod::lemma_fundamental_div_mod(m, b);
+            assert(a == b * (-(m / b))) by (nonlinear_arith) requires m == b * (m / b) + m % b, m % b == 0, a == -m;
+            vstd::arithmetic::div_mod::lemma_mod_multiples_basic(-(m / b), b);
+            assert((b * (-(m / b))) % b == 0) by { vstd::arithmetic::mul::lemma_mul_is_commutative(b, -(m / b)); }
+        } else {
+            lemma_trem_small(b - m % b, b);
+            vstd::arithmetic::div_mod::lemma_fundamental_div_mod(m, b);
+            let q = -(m / b) - 1;
+            assert(a == b * q + (b - m % b)) by (nonlinear_arith) requires m == b * (m / b) + m % b, a == -m, q == -(m / b) - 1;
+            vstd::arithmetic::div_mod::lemma_fundamental_div_mod_converse(a, b, q, b - m % b);
+        }
+    }
+}
+proof fn lemma_trem_neg(a: int, b: int) requires b < 0 ensures trem(a, b) == -trem(-a, -b) {
+    assert(tdiv(a, b) == tdiv(-a, -b)) by {
+        if a == 0 { vstd::arithmetic::div_mod::lemma_basic_div(0, -b); }
+    }
+    assert(a - b * tdiv(a, b) == -((-a) - (-b) * tdiv(a, b))) by (nonlinear_arith);
+}
+/// `((a rem b) + b) rem b` is the floor modulo
+pub broadcast proof fn lemma_fmod(a: int, b: int) requires b != 0 ensures #[trigger] trem(trem(a, b) + b, b) == fmod(a, b) {
+    if b > 0 { lemma_fmod_pos(a, b); } else {
+        lemma_trem_neg(a, b);
+        lemma_trem_neg(trem(a, b) + b, b);
+        lemma_fmod_pos(-a, -b);
+    }
+}
 // ---------------------------------------------------------------- primitive signed / and % (Rust reference: truncating)
 #[verifier::external_body]
 pub broadcast proof fn axiom_i64_div(a: i64, b: i64)
@@ -239,7 +296,7 @@ pub broadcast group group_num {
     axiom_obeys, @@AX_NAMES@@,
     axiom_big_eq, axiom_big_cmp, axiom_r32_eq, axiom_r32_cmp, axiom_cmp_obeys, axiom_r32_ref_eq, axiom_rc_big_eq, axiom_rc_big_ref_eq,
     axiom_prim_int_big, axiom_prim_int_i64, axiom_prim_int_u32, axiom_prim_int_r32, axiom_prim_f64_total,
-    vstd::arithmetic::mul::lemma_mul_is_commutative, lemma_scale_ge, lemma_ipow_one, lemma_ipow_pos, axiom_big_into_big,
+    vstd::arithmetic::mul::lemma_mul_is_commutative, lemma_scale_ge, lemma_ipow_one, lemma_ipow_pos, axiom_big_into_big, lemma_fmod,
 }
 
 // ---------------------------------------------------------------- assumed specs of `num` / `core` functions
@@ -249,6 +306,11 @@ pub assume_specification [<i64 as num::CheckedSub>::checked_sub] (a: &i64, b: &i
     ensures (r matches Some(v) ==> v == *a - *b), (r is None <==> !fits_i64(*a - *b));
 pub assume_specification [<i64 as num::CheckedMul>::checked_mul] (a: &i64, b: &i64) -> (r: Option<i64>)
     ensures (r matches Some(v) ==> v == *a * *b), (r is None <==> !fits_i64(*a * *b));
+pub assume_specification [<i64 as num::CheckedDiv>::checked_div] (a: &i64, b: &i64) -> (r: Option<i64>)
+    ensures (r matches Some(v) ==> *b != 0 && v == tdiv(*a as int, *b as int)), (r is None <==> *b == 0 || (*a == i64::MIN && *b == -1));
+pub assume_specification [i64::wrapping_rem] (a: i64, b: i64) -> (r: i64)
+    requires b != 0,
+    ensures r == trem(a as int, b as int);
 pub assume_specification [i64::checked_pow] (a: i64, e: u32) -> (r: Option<i64>)
     ensures (r matches Some(v) ==> v == ipow(a as int, e as nat)), (r is None <==> !fits_i64(ipow(a as int, e as nat)));
 pub assume_specification [i64::unsigned_abs] (a: i64) -> (r: u64)
@@ -309,6 +371,7 @@ pub assume_specification [<BigInt as From<i64>>::from] (a: i64) -> (r: BigInt) e
 pub assume_specification [<BigInt as From<i32>>::from] (a: i32) -> (r: BigInt) ensures big_val(r) == a;
 pub assume_specification [<BigInt as From<u64>>::from] (a: u64) -> (r: BigInt) ensures big_val(r) == a;
 pub assume_specification [<BigInt as num::Signed>::abs] (a: &BigInt) -> (r: BigInt) ensures big_val(r) == iabs(big_val(*a));
+pub assume_specification [<BigInt as num::Signed>::is_negative] (a: &BigInt) -> (r: bool) ensures r == (big_val(*a) < 0);
 pub assume_specification [BigInt::pow] (a: &BigInt, e: u32) -> (r: BigInt) ensures big_val(r) == ipow(big_val(*a), e as nat);
 
 pub assume_specification<T: Clone + num::Integer> [Ratio::<T>::pow] (a: &Ratio<T>, e: i32) -> (r: Ratio<T>)
@@ -392,11 +455,9 @@ pub open spec fn gives_up_div(a: Number, b: Number) -> bool {
         (Number::Rational(p), Number::Rational(q)) => ratio_div_none::<i32>(r32_num(p), r32_den(p), r32_num(q), r32_den(q)),
         (Number::Rational(p), _) => !fits_i32(vnum(b)) || ratio_div_none::<i32>(r32_num(p), r32_den(p), vnum(b), 1),
         (_, Number::Rational(q)) => !fits_i32(vnum(a)) || ratio_div_none::<i32>(vnum(a), 1, r32_num(q), r32_den(q)),
-        _ => !fits_i32(vnum(a)) || !fits_i32(vnum(b)) || div_new_gives_up(vnum(a), vnum(b)),
+        _ => !fits_i32(vnum(a)) || !fits_i32(vnum(b)) || ratio_div_none::<i32>(vnum(a), 1, vnum(b), 1),
     }
 }
-/// integer / integer where `Ratio::new` cannot negate (i32::MIN with a negative divisor)
-pub open spec fn div_new_gives_up(n: int, d: int) -> bool { d < 0 && (n == i32::MIN || d == i32::MIN) }
 /// order of two exact numbers
 pub open spec fn v_cmp(a: Number, b: Number) -> Ordering { q_cmp(vnum(a), vden(a), vnum(b), vden(b)) }
 pub open spec fn v_eq(a: Number, b: Number) -> bool { q_eq(vnum(a), vden(a), vnum(b), vden(b)) }
@@ -466,6 +527,11 @@ impl vstd::std_specs::cmp::PartialOrdSpecImpl for Number {
     open spec fn obeys_partial_cmp_spec() -> bool { false }
     open spec fn partial_cmp_spec(&self, other: &Number) -> Option<Ordering> { arbitrary() }
 }
+/// arms of `%` whose result is built inside a closure passed to `Option::map`: Verus keeps closure
+/// results opaque, so nothing is known about them (tool limit, not a property of the code)
+pub open spec fn rem_closure_arm(a: Number, b: Number) -> bool {
+    (a is Float && (b is BigInt || b is Rational)) || (a is Rational && b is Float)
+}
 /// `%` is only specified (and only called by remainder / modulo) on integers with a non-zero divisor
 pub open spec fn rem_domain(a: Number, b: Number) -> bool {
     nonzero_divisor(b) && (is_exact(a) ==> is_int(a)) && (is_exact(b) ==> is_int(b))
@@ -514,6 +580,7 @@ UNITS = [{
             'ensures': [
                 (S, 'is_exact(*self) && is_exact(*rhs) ==> is_exact(r) || gives_up_add(*self, *rhs)'),
                 (S, 'is_exact(r) ==> is_exact(*self) && is_exact(*rhs) && is_sum(r, *self, *rhs)'),
+                (S, '!(*self is Rational) && !(*rhs is Rational) ==> !(r is Rational)'),
             ],
         },
         'impl Add for Number::add': {
@@ -521,6 +588,7 @@ UNITS = [{
             'ensures': [
                 (S, 'is_exact(self) && is_exact(rhs) ==> is_exact(r) || gives_up_add(self, rhs)'),
                 (S, 'is_exact(r) ==> is_exact(self) && is_exact(rhs) && is_sum(r, self, rhs)'),
+                (S, '!(self is Rational) && !(rhs is Rational) ==> !(r is Rational)'),
             ],
         },
         'impl Sub for &Number::sub': {
@@ -561,7 +629,8 @@ UNITS = [{
         'impl Rem for Number::rem': {
             'props': ['C08', 'C06'],
             'ensures': [
-                (S, 'is_int(self) && is_int(rhs) ==> (r matches Some(v) && is_int(v) && vnum(v) == trem(vnum(self), vnum(rhs)))'),
+                (S, 'is_int(self) && is_int(rhs) ==> (r matches Some(v) && is_int(v) && !(v is Rational) && vnum(v) == trem(vnum(self), vnum(rhs)))'),
+                (S, '(r matches Some(v) && is_exact(v)) ==> (is_exact(self) && is_exact(rhs)) || rem_closure_arm(self, rhs)'),
             ],
         },
         'impl From<u64> for Number::from': {
@@ -571,6 +640,13 @@ UNITS = [{
         'impl Number::new_bigint': {
             'props': ['C08'], 'trusted': True,
             'ensures': [(S, 'r matches Number::BigInt(b) && big_val(*b) == big_into::<T>(num)')],
+        },
+        'impl Number::integer_as_fixnum': {
+            'props': ['C08', 'C06'],
+            'ensures': [
+                (S, '(*self is Rational && is_int(*self)) ==> r == Number::Fixnum(vnum(*self) as i64)'),
+                (S, '!(*self is Rational && is_int(*self)) ==> r == *self'),
+            ],
         },
         'impl Number::quotient': {
             'props': ['C08', 'C06'],
@@ -582,12 +658,13 @@ UNITS = [{
         'impl Rem for &Number::rem': {
             'props': ['C08', 'C06'],
             'ensures': [
-                (S, 'is_int(*self) && is_int(*rhs) ==> (r matches Some(v) && is_int(v) && vnum(v) == trem(vnum(*self), vnum(*rhs)))'),
+                (S, 'is_int(*self) && is_int(*rhs) ==> (r matches Some(v) && is_int(v) && !(v is Rational) && vnum(v) == trem(vnum(*self), vnum(*rhs)))'),
+                (S, '(r matches Some(v) && is_exact(v)) ==> (is_exact(*self) && is_exact(*rhs)) || rem_closure_arm(*self, *rhs)'),
             ],
         },
         'impl Number::modulo': {
             'props': ['C08', 'C06'],
-            'requires': ['rem_domain(*self, *rhs)'],
+            'requires': ['rem_domain(*self, *rhs)', '!(*self is Float && *rhs is BigInt)'],
             'ensures': [
                 (S, 'is_int(*self) && is_int(*rhs) ==> (r matches Some(v) && is_int(v) && vnum(v) == fmod(vnum(*self), vnum(*rhs)))'),
             ],
